@@ -216,6 +216,10 @@ def base_paths():
                     if (f0, f1) == ("stall", "stall") and order == (1, 0):
                         continue
                     paths.append(("c%d-r2-%s-%s-%d%d" % (nc, f0, f1, order[0], order[1]), start(nc, 2) + mid + [{"a": "Quiescent"}]))
+        # informer lag: the replacement is gone from the API but the cluster state still knows it for one pass
+        paths.append(("c%d-r1-vanish-lag" % nc, start(nc, 1) + [dict(ev("ReplVanish", 0), lag=True), dict(P, lag=True), dict(P), {"a": "Quiescent"}]))
+        paths.append(("c%d-r2-init-lag" % nc, start(nc, 2) + [dict(ev("ReplInit", 0), lag=True), ev("ReplInit", 1), dict(P, lag=True), dict(P),
+                                                            {"a": "Quiescent"}]))
         # latched: the first replacement was seen Initialized, disappears, then the second one becomes ready
         paths.append(("c%d-r2-latched-vanish" % nc, start(nc, 2) + [ev("ReplInit", 0), dict(P), ev("ReplVanish", 0), ev("ReplInit", 1), dict(P),
                                                                  {"a": "Quiescent"}]))
